@@ -1,6 +1,7 @@
 pub mod c04;
 pub mod c05;
 pub mod c05d;
+pub mod c08;
 pub mod c10;
 pub mod c11;
 pub mod c12;
@@ -26,6 +27,7 @@ pub struct PropDef {
 pub const PROPS: &[PropDef] = &[
     PropDef { id: "C04", level: "exploration", run: c04::run, shards: 12, isolate: false },
     PropDef { id: "C05", level: "exploration", run: c05::run, shards: 12, isolate: true },
+    PropDef { id: "C08", level: "fault_enumeration", run: c08::run, shards: 8, isolate: false },
     PropDef { id: "C10", level: "exploration", run: c10::run, shards: 1, isolate: false },
     PropDef { id: "C11", level: "exploration", run: c11::run, shards: 12, isolate: false },
     PropDef { id: "C12", level: "exploration", run: c12::run, shards: 1, isolate: false },
